@@ -294,6 +294,25 @@ def _check(prop, tier, seed, repo, vacuity=True, update_baseline=False):
                     undecided.append("kani harness %s: %s" % (h["name"], h["status"]))
         trusted += kres.get("trusted", [])
 
+    # native bounded fallback: when part of the property's code could not be given to the verifier in this run (lost
+    # anchor, census mismatch, unsupported construct) and no violation has been established, the registered native
+    # enumeration is run on the real code as a BOUNDED stand-in (never counted as proved). It can only ADD a violation
+    # (with a concrete failing input); if it finds nothing the run stays undecided.
+    native_fb = None
+    if undecided and not violations and cfg.get("native_fallback"):
+        test = cfg["native_fallback"]
+        try:
+            import native_run
+            cexn = native_run.find_cex(test, repo)
+            _NATIVE_CACHE[test] = cexn
+            native_fb = {"test": test, "bound": native_run.BOUNDS.get(test, ""), "status": "FAILS" if cexn else "no failing input in the enumerated family"}
+            if cexn:
+                violations.append({"unit": "native", "function": test, "engine": "native-bounded",
+                                   "errors": [{"message": "bounded native enumeration found failing inputs (run because: %s)" % undecided[0][:300], "text": "; ".join(cexn["failing_inputs"][:3]),
+                                               "rendered": "\n".join(cexn["failing_inputs"])}], "cex": cexn})
+        except Exception as e:  # noqa
+            native_fb = {"test": test, "status": "could not run: %s" % e}
+
     # known findings: each listed finding must still be observed? No: a fixed defect simply stops appearing.
     printed = set()
     for kf, e in known:
@@ -337,6 +356,7 @@ def _check(prop, tier, seed, repo, vacuity=True, update_baseline=False):
             "samples": samples,
             "known_findings_observed": [kf.get("what") for kf, _ in known],
             "undecided": undecided,
+            "native_bounded_fallback": native_fb,
             "explanation": cfg.get("explanation", ""),
             "clauses_not_decided": cfg.get("not_decided", []),
         },
